@@ -33,6 +33,7 @@ for n in names:
                 hit.append(c + ":ENGINE-ERROR")
     finally:
         sh("git -C /repo checkout -- .")
+        sh("git -C %s checkout -- evidence" % VERIF)  # evidence of a run on a changed tree is not a record of the unchanged tree
     want = bool(meta.get("detected"))
     got = any(":" not in h for h in hit)
     status = "ok" if want == got else ("REGRESSION (was detected, now missed)" if want else "now detected (recorded as missed)")
